@@ -5,9 +5,22 @@ go 1.21
 require github.com/bfenetworks/bfe v0.0.0
 
 require (
+	github.com/aymerick/douceur v0.2.0 // indirect
+	github.com/chris-ramon/douceur v0.2.0 // indirect
+	github.com/elastic/go-sysinfo v1.1.1 // indirect
+	github.com/gorilla/css v1.0.0 // indirect
 	github.com/jehiah/go-strftime v0.0.0-20171201141054-1d33003b3869 // indirect
+	github.com/joeshaw/multierror v0.0.0-20140124173710-69b34d4ec901 // indirect
 	github.com/modern-go/concurrent v0.0.0-20180228061459-e0a39a4cb421 // indirect
 	github.com/modern-go/reflect2 v0.0.0-20180701023420-4b7aa43c6742 // indirect
+	github.com/opentracing-contrib/go-observer v0.0.0-20170622124052-a52f23424492 // indirect
+	github.com/oschwald/maxminddb-golang v1.6.0 // indirect
+	github.com/prometheus/procfs v0.0.3 // indirect
+	go.elastic.co/apm/module/apmhttp v1.7.2 // indirect
+	go.elastic.co/fastjson v1.0.0 // indirect
+	golang.org/x/text v0.3.3 // indirect
+	google.golang.org/grpc v1.22.1 // indirect
+	howett.net/plist v0.0.0-20181124034731-591f970eefbb // indirect
 )
 
 // same versions as /repo/go.mod so that -mod=mod never has to rewrite this file
